@@ -111,8 +111,10 @@ prop("C12", engine="inh", worker="make_inh_trace", prefixes=["C12."], level="mod
 prop("C13", engine="inh", worker="make_inh_trace", prefixes=["C13."], level="model_checking",
      mc=("MxInherit", "MC_MxInherit_quick.cfg", "MC_MxInherit_thorough.cfg"),
      mbt_opts={"deep": True, "checkdefs": True, "handles": True},
-     jobs=lambda tier: [("delete", dict()), ("inherit", dict())],
-     quick=dict(traces=160, nops=25), thorough=dict(traces=4000, nops=40))
+     jobs=lambda tier: [("delete", dict()), ("inherit", dict()),
+                        ("dyn-delete", dict(_worker="make_dyn_trace"))],
+     quick=dict(traces=192, nops=25), thorough=dict(traces=4800, nops=40),
+     also=["C07.HandleDeadOrCurrent"])
 
 
 prop("C04", engine="inh", worker="make_c04_trace", prefixes=["C04."], level="model_checking",
@@ -382,10 +384,10 @@ def run_eval(pid, tier, seed):
     n = size["traces"]
     for i in range(n):
         profile, opts = jobspecs[i % len(jobspecs)]
-        jobs.append((seed * 100003 + i, profile, size["nops"], opts))
+        jobs.append((seed * 100003 + i, profile, size["nops"],
+                     dict(opts, _worker=opts.get("_worker", cfg.get("worker", "make_eval_trace")))))
     t0 = time.time()
-    worker = getattr(pl, cfg.get("worker", "make_eval_trace"))
-    traces = pl.produce(worker, jobs, procs=NCPU)
+    traces = pl.produce(pl.dispatch_trace, jobs, procs=NCPU)
     t_prod = time.time() - t0
     verdicts, stats = pl.judge(traces, batch_size=max(4, min(40, n // NCPU + 1)), procs=NCPU)
     n_random = len(traces)
